@@ -256,6 +256,11 @@ def run_rand(shard, rec, B):
                 qg, qp = B.gsps(Q)
                 rec.check("parse.list." + form, np.array_equal(qg, gs) and np.array_equal(qp, ps % 4), case, True,
                           expected=case, observed=[O.show(g, p) for g, p in zip(qg, qp)])
+        # a list handed to paulis() is that list
+        ok, Q = rec.attempt("parse.list.passthrough", case, lambda: lib.paulis(PL))
+        if ok:
+            qg, qp = B.gsps(Q)
+            rec.check("parse.list.passthrough", isinstance(Q, lib.PauliList) and len(Q) == L and np.array_equal(qg, gs) and np.array_equal(qp, ps % 4), case, True)
         # tokens -> list ; repr -> list
         ok, T = rec.attempt("list.tokenize", case, lambda: PL.tokenize())
         if ok:
